@@ -1,16 +1,174 @@
 import TonicModel.Model.Shutdown
 import TonicModel.Spec.Shutdown
+import TonicModel.Lemmas.Shutdown
+import TonicModel.Lemmas.ShutdownViews
 /-
-C13 — Graceful shutdown loses no accepted call.  Property theorems only.
+C13 — Graceful shutdown loses no accepted call.  Property theorems only; the invariant and its
+preservation are in `Lemmas/Shutdown`, the oracle in `Spec/Shutdown`.
+
+`Reachable g b a s`: `s` is reachable from the initial state of a server configured with
+`g` (a shutdown signal is given), `b` (the accept loop's `select!` is `biased;`, i.e. the repaired
+code) and `a` (`max_connection_age` set) by ANY finite interleaving of enabled steps — any number
+of connections and calls, any placement of the signal, any order of task steps.
+
+PARTIAL with respect to hyper: the guard `hyperConnDone` of the step `connBreak` (the hyper
+connection future resolves only when the peer left, or graceful shutdown was requested and every
+accepted stream has been answered and flushed) is hyper's contract, not proved here.
 -/
 namespace C13
-open Shutdown
+open Shutdown Spec.Shutdown
 
-/-- The accept loop as found (`select!` without `biased;`): a connection offered AFTER the signal
-fired can still be accepted — both branches are ready and either may win. -/
+/-- (a, truth) In every reachable state every caller holds a prefix of the true outcome of its
+call, and nothing at all of a call the server did not accept. -/
+theorem C13_outcomes_truthful {g b a : Bool} {s : State} (h : Reachable g b a s) :
+    truthful (callViews s) = true := by
+  have hg := good_reachable h
+  simp only [truthful, callViews, List.all_eq_true, List.mem_flatMap, List.mem_map,
+    Bool.and_eq_true, Bool.or_eq_true, List.isEmpty_iff]
+  rintro v ⟨cn, hcn, k, hk, rfl⟩
+  exact callView_truthful ((hg.conns cn hcn).calls_ok k hk)
+
+/-- (b) With the repaired (`biased;`) accept loop, a connection offered after the signal fired
+is never accepted — in no reachable state, whatever the interleaving. -/
+theorem C13_no_accept_after_signal {g a : Bool} {s : State} (h : Reachable g true a s) :
+    noAcceptAfterSignal (connViews s) = true := by
+  have hg := good_reachable h
+  have hb := (reachable_cfg h).2.1
+  simp only [noAcceptAfterSignal, connViews, List.all_eq_true, List.mem_map]
+  rintro v ⟨cn, hcn, rfl⟩
+  simp only [connView]
+  cases ho : cn.offeredAfterSig with
+  | false => simp
+  | true => simp [(hg.conns cn hcn).late hb ho]
+
+/-- (b) is FALSE of the accept loop as found (`select!` without `biased;`): the signal fires, a
+connection is offered afterwards, and the loop — both branches ready — takes the connection. -/
 theorem C13_no_accept_after_signal_fails :
-    (run (init true false false) [.sigFire, .offer, .loopAccept 0]).map
-      (fun s => s.conns.map (fun cn => (cn.offeredAfterSig, cn.accepted))) = some [(true, true)] := by
+    ∃ s, Reachable true false false s ∧ noAcceptAfterSignal (connViews s) = false := by
+  refine ⟨_, .step (.loopAccept 0) (.step .offer (.step .sigFire .init rfl) rfl) rfl, ?_⟩
   decide
+
+/-- (c) + (a) Whenever the serve future has resolved, every accepted connection has been closed
+and every accepted call whose caller did not itself give up has delivered its complete, true
+outcome; and no accepted connection was open at the instant of resolution. -/
+theorem C13_resolve_only_when_all_closed {b a : Bool} {s : State} (h : Reachable true b a s) :
+    resolvedOnlyAfterClose s.resolved (connViews s) (callViews s) = true
+    ∧ (s.resolved = true → s.openAtResolve = 0) := by
+  have hg := good_reachable h
+  have hgr := (reachable_cfg h).1
+  refine ⟨?_, fun hr => hg.open_zero hr hgr⟩
+  cases hr : s.resolved with
+  | false => simp [resolvedOnlyAfterClose]
+  | true =>
+    simp only [resolvedOnlyAfterClose, Bool.not_true, Bool.false_or, Bool.and_eq_true]
+    constructor
+    · simp only [allClosed, connViews, List.all_eq_true, List.mem_map, Bool.or_eq_true,
+        Bool.not_eq_true']
+      rintro v ⟨cn, hcn, rfl⟩
+      simp only [connView]
+      cases ha : cn.accepted with
+      | false => exact Or.inl rfl
+      | true => exact Or.inr ((hg.conns cn hcn).resolved_closed hr hgr ha)
+    · simp only [acceptedCallsComplete, callViews, List.all_eq_true, List.mem_flatMap,
+        List.mem_map, Bool.or_eq_true, Bool.not_eq_true', beq_iff_eq]
+      rintro v ⟨cn, hcn, k, hk, rfl⟩
+      have hc := hg.conns cn hcn
+      cases hst : k.started with
+      | false => exact Or.inl (Or.inl (by simp [callView, hst]))
+      | true =>
+        cases hab : (k.cancelled || cn.peerGone) with
+        | true => exact Or.inl (Or.inr (by simp [callView, hab]))
+        | false =>
+          simp only [Bool.or_eq_false_iff] at hab
+          right
+          have hcl := hc.resolved_closed hr hgr (hc.hs_acc (hc.started_hs k hk hst))
+          exact callView_complete (hc.calls_ok k hk) (hc.closed_calls hcl hab.2 k hk hst hab.1)
+
+/-- The watch channel's receiver count is what the anchors say: the serve future's own receiver
+(until the accept loop is over) plus one per connection task that has not finished — every open
+accepted connection is counted, nothing but accepted connections is counted, and a count of zero
+means every accepted connection is closed. -/
+theorem C13_receiver_count_is_open_connections {b a : Bool} {s : State}
+    (h : Reachable true b a s) :
+    receiverCount s = (if s.afterDone then 0 else 1) + s.conns.countP (·.watcher)
+    ∧ openCount s ≤ s.conns.countP (·.watcher)
+    ∧ (∀ cn ∈ s.conns, cn.watcher = true → cn.accepted = true)
+    ∧ (receiverCount s = 0 → allClosed (connViews s) = true) := by
+  have hg := good_reachable h
+  have hgr := (reachable_cfg h).1
+  refine ⟨?_, ?_, ?_, ?_⟩
+  · unfold receiverCount
+    rw [hg.mainRx_eq]
+    cases s.afterDone <;> simp
+  · unfold openCount
+    apply List.countP_mono_left
+    intro cn hcn ho
+    simp only [Conn.isOpen, Bool.and_eq_true, Bool.not_eq_true'] at ho
+    exact (hg.conns cn hcn).open_watched ho.1 ho.2 hgr
+  · intro cn hcn hw
+    exact ((hg.conns cn hcn).watcher_acc hw).1
+  · intro h0
+    have := hg.all_closed_of_no_receivers hgr h0
+    simp only [allClosed, connViews, List.all_eq_true, List.mem_map, Bool.or_eq_true,
+      Bool.not_eq_true']
+    rintro v ⟨cn, hcn, rfl⟩
+    simp only [connView]
+    cases ha : cn.accepted with
+    | false => exact Or.inl rfl
+    | true => exact Or.inr (this cn hcn ha)
+
+/-- "resolve enabled iff the accept loop has ended and the receiver count is 0": the exact
+enabling condition of the `resolve` step. -/
+theorem C13_resolve_enabled_iff (s : State) :
+    (step s .resolve).isSome = true ↔
+      s.afterDone = true ∧ s.resolved = false ∧ (s.cfgGraceful = true → receiverCount s = 0) := by
+  simp only [step]
+  split
+  · rename_i hc
+    simp only [Bool.and_eq_true, Bool.not_eq_true', Bool.or_eq_true, beq_iff_eq] at hc
+    simp only [Option.isSome_some, true_iff]
+    refine ⟨hc.1.1, hc.1.2, fun hgr => ?_⟩
+    rcases hc.2 with hx | hx
+    · simp [hgr] at hx
+    · exact hx
+  · rename_i hc
+    simp only [Bool.and_eq_true, Bool.not_eq_true', Bool.or_eq_true, beq_iff_eq, not_and,
+      not_or] at hc
+    simp only [Option.isSome_none, Bool.false_eq_true, false_iff, not_and]
+    intro h1 h2 h3
+    have := hc ⟨h1, h2⟩
+    cases hgr : s.cfgGraceful with
+    | false => simp [hgr] at this
+    | true => exact this.2 (h3 hgr)
+
+-- hypotheses are satisfiable: a reachable, resolved state with an accepted connection and a
+-- completed call (signal placed while the call is in flight)
+example : ∃ s, Reachable true true false s ∧ s.resolved = true
+    ∧ (connViews s).any (·.accepted) = true ∧ (callViews s).any (·.started) = true := by
+  let ls : List Label :=
+    [.offer, .loopAccept 0, .hsDone 0, .issue 0 [[.hdr, .msg 0, .status 0]], .callStart 0 0,
+     .sigFire, .loopSig, .afterLoop, .connSig 0, .final 0, .permit 0 0, .produce 0 0,
+     .deliver 0 0, .deliver 0 0, .deliver 0 0, .connBreak 0, .connDropWatcher 0, .resolve]
+  have hreach : ∀ (ls : List Label) (s0 s : State), Reachable true true false s0 →
+      run s0 ls = some s → Reachable true true false s := by
+    intro ls
+    induction ls with
+    | nil => intro s0 s h0 hr; simp only [run, Option.some.injEq] at hr; exact hr ▸ h0
+    | cons l ls ih =>
+      intro s0 s h0 hr
+      simp only [run] at hr
+      split at hr
+      · rename_i s1 hs1; exact ih s1 s (.step l h0 hs1) hr
+      · cases hr
+  cases hrun : run (init true true false) ls with
+  | none => exact absurd hrun (by decide)
+  | some s =>
+    refine ⟨s, hreach ls _ s .init hrun, ?_⟩
+    have : (run (init true true false) ls).map
+        (fun s => (s.resolved, (connViews s).any (·.accepted), (callViews s).any (·.started)))
+        = some (true, true, true) := by decide
+    rw [hrun] at this
+    simp only [Option.map_some, Option.some.injEq, Prod.mk.injEq] at this
+    exact this
 
 end C13
